@@ -114,24 +114,39 @@ func compare(what string, c Case, got poly.Sequence) error {
 	if len(got.Features) != len(c.Features) {
 		return vk.Errf("%s: %d features read back, %d written", what, len(got.Features), len(c.Features))
 	}
-	for i, f := range c.Features {
-		g := got.Features[i]
-		if g.Name != f.Seqid || g.Source != f.Source || g.Type != f.Type || g.Score != f.Score || g.Strand != f.Strand || g.Phase != f.Phase {
-			return vk.Errf("%s: feature %d columns read back as (%q,%q,%q,%q,%q,%q), written (%q,%q,%q,%q,%q,%q)", what, i, g.Name, g.Source, g.Type, g.Score, g.Strand, g.Phase, f.Seqid, f.Source, f.Type, f.Score, f.Strand, f.Phase)
+	// The property speaks of each feature, not of their order: features are matched as a multiset
+	// (a writer may, for instance, sort rows by start coordinate).
+	key := func(seqid, source, typ, score, strand, phase string, start0, end int, attrs map[string]string) string {
+		ks := make([]string, 0, len(attrs))
+		for k, v := range attrs {
+			ks = append(ks, fmt.Sprintf("%q=%q", k, v))
 		}
-		if g.SequenceLocation.Start != f.Start-1 || g.SequenceLocation.End != f.End {
-			return vk.Errf("%s: feature %d written at %d..%d (1-based inclusive) has in-memory location [%d,%d), want [%d,%d)", what, i, f.Start, f.End, g.SequenceLocation.Start, g.SequenceLocation.End, f.Start-1, f.End)
-		}
-		if len(g.Attributes) != len(f.Attrs) {
-			return vk.Errf("%s: feature %d has attributes %v, written %v", what, i, g.Attributes, f.Attrs)
-		}
-		for k, v := range f.Attrs {
-			if gv, ok := g.Attributes[k]; !ok || gv != v {
-				return vk.Errf("%s: feature %d attribute %q = %q (present %v), written %q", what, i, k, gv, ok, v)
+		sort.Strings(ks)
+		return fmt.Sprintf("%q %q %q %q %q %q [%d,%d) %s", seqid, source, typ, score, strand, phase, start0, end, strings.Join(ks, ";"))
+	}
+	want := map[string]int{}
+	for _, f := range c.Features {
+		want[key(f.Seqid, f.Source, f.Type, f.Score, f.Strand, f.Phase, f.Start-1, f.End, f.Attrs)]++
+	}
+	for i, g := range got.Features {
+		k := key(g.Name, g.Source, g.Type, g.Score, g.Strand, g.Phase, g.SequenceLocation.Start, g.SequenceLocation.End, g.Attributes)
+		if want[k] == 0 {
+			// find the written feature that looks most like it, for the message
+			best := ""
+			for _, f := range c.Features {
+				if f.Seqid == g.Name && f.Type == g.Type && f.Source == g.Source {
+					best = key(f.Seqid, f.Source, f.Type, f.Score, f.Strand, f.Phase, f.Start-1, f.End, f.Attrs)
+					break
+				}
 			}
+			return vk.Errf("%s: parsed feature %d {%s} (columns, in-memory [start,end), attributes) matches no written feature; closest written: {%s}", what, i, k, best)
 		}
-		if fs := g.GetSequence(); fs != seq[f.Start-1:f.End] {
-			return vk.Errf("%s: feature %d (%d..%d) reports sequence %q, bases %d..%d of the file's sequence are %q", what, i, f.Start, f.End, fs, f.Start, f.End, seq[f.Start-1:f.End])
+		want[k]--
+		if g.SequenceLocation.Start < 0 || g.SequenceLocation.End > len(seq) || g.SequenceLocation.Start > g.SequenceLocation.End {
+			return vk.Errf("%s: feature %d has location [%d,%d) outside the sequence of %d letters", what, i, g.SequenceLocation.Start, g.SequenceLocation.End, len(seq))
+		}
+		if fs := g.GetSequence(); fs != seq[g.SequenceLocation.Start:g.SequenceLocation.End] {
+			return vk.Errf("%s: feature %d (%d..%d) reports sequence %q, bases %d..%d of the file's sequence are %q", what, i, g.SequenceLocation.Start+1, g.SequenceLocation.End, fs, g.SequenceLocation.Start+1, g.SequenceLocation.End, seq[g.SequenceLocation.Start:g.SequenceLocation.End])
 		}
 	}
 	return nil
